@@ -550,14 +550,14 @@ def main(argv=None):
     deadline = time.time() + (a.budget or (75 if quick else 1500))
     n = 1500 if quick else 200000
     with common.Pool() as pool:
-        cases = []
-        for i in range(n):
-            cases.append(gen_client_case(a.seed * 1_000_000 + i))
-            cases.append(gen_client_case(a.seed * 1_000_000 + n + i))
-            if i % 2 == 0:
-                cases.append(gen_server_case(a.seed * 1_000_000 + i))
-        for c in cases[:3]:
-            c["want_sample"] = True
+        def gen():
+            for i in range(n):
+                yield gen_client_case(a.seed * 1_000_000 + i)
+                yield gen_client_case(a.seed * 1_000_000 + n + i)
+                if i % 2 == 0:
+                    yield gen_server_case(a.seed * 1_000_000 + i)
+
+        cases = common.with_samples(gen(), 3)
         for case, res in pool.map(run_case, cases, deadline=deadline, chunksize=4):
             ev.add_run(res)
             for v in res["violations"]:
